@@ -6,6 +6,7 @@ for the shard's level (`vflag()`): `--debug` at debug, `-q` otherwise (one flag 
 depend on the level).  Checks that study verbosity themselves (C03, C11) override this locally and restore it.
 """
 LEVEL = ['normal']
+VERSION = [8]        # the cart / Lua version number the Lua-tool checks create their objects and cart files with (rotates per shard)
 BASE = ['cart']      # base name for the cart files a shard hands to the command line (rotates over vf.carts.CART_BASENAMES)
 
 
@@ -40,6 +41,7 @@ def install(spec):
         from . import carts
         digits = ''.join(ch for ch in str(spec.get('name', 'shard0')) if ch.isdigit())
         BASE[0] = carts.cart_basename(int(digits or 0) + 1)
+        VERSION[0] = (8, 33, 0, 41, 29, 30, 16, 255)[int(digits or 0) % 8]
     except Exception:
         pass
     util._write_stream = Sink()
